@@ -35,6 +35,43 @@ NOT_DECIDED = (
 TECHNIQUE = "static analysis: def-use form check of every weight store (reaching definitions through inlined helpers and scan bodies)"
 
 
+def _divisor_not_clipped(ctx, P, step, run_):
+    """GUARD-3.  The fast CPMC blocks update the Green's function and the cached overlap with the ratio of the selected
+    field.  The rank-one update divides by that ratio and the next importance factor divides by the cached overlap it was
+    multiplied into.  When the ratio handed on is the *clipped* one (where(r < eps, 0, r)), a walker killed inside the
+    sweep (both candidates clipped) gets the ratio 0 exactly: its Green's function becomes inf / NaN, its overlap 0, the
+    next factor x / 0, and its weight 0 * inf = NaN instead of staying 0 -- the population-control shift is NaN from then
+    on.  The slow reference recomputes the overlap from the determinants and stays finite."""
+    from ..rules.match import m_where, zero_guard
+    # one judgement per implementation: subclasses that inherit the step function share its code
+    done = ctx.__dict__.setdefault("_c09_guard3_done", set())
+    if step.qualname in done:
+        return
+    done.add(step.qualname)
+    k = 0
+    for e in run_.events:
+        if e.kind != "call":
+            continue
+        f = e.data.args[0]
+        if not (f.op == "attr" and f.args[1] == "update_greens_function_vmap"):
+            continue
+        _, pos, _ = call_parts(e.data)
+        if len(pos) < 2:
+            continue
+        ratios = strip_wrappers(pos[1])
+        w = m_where(ratios)
+        arms = [strip_wrappers(w[1]), strip_wrappers(w[2])] if w is not None else [ratios]
+        clipped = [a for a in arms if zero_guard(a) is not None and zero_guard(a)[0] in ("<", "<=")]
+        ctx.rep.ob("GUARD-3", f"{step.qualname}: Green's-function update #{k} divides by a ratio that cannot be exactly 0",
+                   not clipped,
+                   "ratio of the selected field as computed" if not clipped else
+                   f"the ratio handed to update_greens_function_vmap (and multiplied into the cached overlaps) is the "
+                   f"clipped one, {show(clipped[0], maxdepth=2)[:70]}: a walker killed in this block gets 0, its Green's "
+                   f"function inf / NaN, its cached overlap 0, and its weight 0 * inf = NaN at the next importance ratio",
+                   e.frame.mod.path, e.line)
+        k += 1
+
+
 def run(ctx):
     p = ctx.p
     props = [q for q in p.subclasses("propagation.propagator") if not p.abstract_methods(q)]
@@ -128,6 +165,7 @@ def run(ctx):
                any(ws.kind == "guard" and ws.guard[0] in (">", ">=") for ws in tail),
                "tail guards: " + ", ".join(ws.guard[0] for ws in tail if ws.kind == "guard"), step)
         _shift(ctx, P, step, run_, stores)
+        _divisor_not_clipped(ctx, P, step, run_)
     if total < 20:
         raise AnalysisError(f"only {total} weight stores found over all propagators (expected >= 20)")
     ctx.rep.count("weight_stores", total)
